@@ -145,6 +145,10 @@ def simplify(t):
         return t
     f = t[1]
     a = t[2:]
+    if f in ('round_down', 'round_up') and len(a) == 2 and a[1] == C(1):
+        return a[0]
+    if f == 'mod' and len(a) == 2 and a[1] == C(1):
+        return C(0)
     if f in ('add', 'sub'):
         if all(is_c(x) for x in a):
             v = a[0][1] + a[1][1] if f == 'add' else a[0][1] - a[1][1]
@@ -177,6 +181,12 @@ def simplify(t):
     if f == 'shl' and is_c(a[0]) and is_c(a[1]):
         return C(a[0][1] << a[1][1])
     if f == 'and':
+        if a[0] == C(0) or a[1] == C(0):
+            return C(0)
+        if a[0] == C(WORD - 1):
+            return a[1]
+        if a[1] == C(WORD - 1):
+            return a[0]
         for x, m in ((a[0], a[1]), (a[1], a[0])):
             d = mask_of(m)
             if d is not None:
@@ -203,9 +213,13 @@ def simplify(t):
                     n, q = x[2][2], x[2][3]
                     if pred_of(q) == d:
                         return ('app', 'round_up', n, d)
+                if d == C(1):
+                    return x
                 return ('app', 'round_down', x, d)
             d = pred_of(m)
             if d is not None and not is_c(x):
+                if d == C(1):
+                    return C(0)
                 return ('app', 'mod', x, d)
         if is_c(a[0]) and is_c(a[1]):
             return C(a[0][1] & a[1][1])
@@ -213,6 +227,8 @@ def simplify(t):
     if f == 'rem':
         if is_c(a[0]) and is_c(a[1]) and a[1][1] != 0:
             return C(a[0][1] % a[1][1])
+        if a[1] == C(1):
+            return C(0)
         return ('app', 'mod', a[0], a[1])
     if f == 'not' and is_c(a[0]):
         return C((~a[0][1]) & (WORD - 1))
